@@ -633,14 +633,20 @@ def whitespace_section(chk, rng, quick, model_ok):
         mid = len(v) // 2
         for w in (' ', '\t', '\u3000'):          # white space inside the lexical form is never dropped
             cases.append((t, v, k, w, v[:mid] + w + v[mid:]))
-    idx = [i for i, c in enumerate(cases) if c[2] is not None]
+    # list types: the items are separated by XML white space and by nothing else (the other space characters are not name characters)
+    for t in ('NMTOKENS', 'IDREFS', 'ENTITIES'):
+        for w in list(XML_WS) + OTHER_WS + [' \t', '\r\n ']:
+            cases.append((t, 'a b', 'list', w, 'a' + w + 'b'))
+    idx = [i for i, c in enumerate(cases) if isinstance(c[2], int)]
     model = dict(zip(idx, core.run_coq_cases('C10', IMPORTS, [f'run_ws {cases[i][2]} {zs(cases[i][4])}' for i in idx], chunk=500, tag='ws',
                                              preamble='Open Scope Z_scope.'))) if model_ok else {}
     for i, (t, v, k, w, raw) in enumerate(cases):
         chk.evaluations += 1
         chk.count('whitespace:' + t)
         inner = not (raw.startswith(w) or raw.endswith(w))
-        if i in model:
+        if k == 'list':
+            want = all(c in XML_WS for c in w)
+        elif i in model:
             want = bool(model[i])
         elif inner:
             want = None                      # no recogniser for the type: only the edge positions are judged
